@@ -154,24 +154,25 @@ NOT_YET = {
 
 # sentences appended to the level text: what rounds seven and eight of the seeded changes added (DESIGN.md 12.5, 12.6)
 EXTRA = {
- "C01": " Encodings include used duplicate constants, non-zero switch padding (version >= 51), descriptors at the 255-slot limit, line number tables beyond 65535 entries; a read that fails (the same file cut short) precedes every read.",
+ "C01": " Encodings include used duplicate constants, non-zero switch padding (version >= 51), descriptors at the 255-slot limit, line number tables beyond 65535 entries; a read that fails (the same file cut short) precedes every read. Call sites sharing large bootstrap methods, bootstrap arguments differing only in the sign of zero, module names with escapes, a label at every bytecode offset.",
  "C02": " A write that fails half way (a buffer that is too small) precedes every write; tables beyond 65535 entries may be split or refused. Sub-check pool_size_limit enumerates input pools of 65529-65535 slots, written as read and after a renaming that adds one constant (valid up to 65535 slots, refusal beyond).",
  "C03": " Sub-check large_sets repeats the laws on sets of 200-1500 classes (64 KiB - 1 MiB of text) with single lines of up to 260 KiB; namespace names that are equal up to case / prefixes of each other.",
- "C04": " Targets much larger than the diff (80+ untouched entries per level), comments differing only in the kind of white space, comments with backslashes.",
+ "C04": " Targets much larger than the diff (80+ untouched entries per level), comments differing only in the kind of white space, comments with backslashes. Diff texts of tens of KiB.",
  "C06": " Method descriptors with hundreds of array dimensions in total; on one remapper an unknown member whose owner+name text equals a mapped member's (other split) is asked first.",
+ "C07": " An equal jar is remapped twice with one remapper. Seven seeded changes of the ninth round are recorded as not caught (DESIGN 12.7: C05-R9A, C07-R9A, C08-R9A/B, C09-R9B, C16-R9A, C17-R9A).",
  "C08": " Namespace names equal up to ASCII case / prefixes of each other / with blanks; names holding unpaired surrogates.",
  "C09": " Names holding unpaired surrogates (built in memory).",
- "C10": " Names holding unpaired surrogates (built in memory); comments with backslashes.",
+ "C10": " Names holding unpaired surrogates (built in memory); comments with backslashes. Diffs with 160+ additions; class names that merely contain the placeholder package path.",
  "C11": " Names holding unpaired surrogates (built in memory).",
- "C12": " Inner-class chains 5-40 levels deep; comments with backslashes; the directory is handed over under ten spellings (hidden, blank, trailing '.', through '..').",
- "C13": " Both jars also as zip archives, holding a differing class of equal size and equal (forged) CRC-32 on the two sides; classes and members that already carry side annotations.",
+ "C12": " Inner-class chains 5-40 levels deep; comments with backslashes; the directory is handed over under ten spellings (hidden, blank, trailing '.', through '..'). Comments with Unicode white space; a longer version of the same classes written into the directory first.",
+ "C13": " Both jars also as zip archives, holding a differing class of equal size and equal (forged) CRC-32 on the two sides; classes and members that already carry side annotations. An identical class of more than 1 MiB; a differing class with more than 512 list entries and swapped shared members.",
  "C14": " A class named exactly like another listed class's nested name, inner names holding '$'; the inner name recorded in the InnerClasses entry is compared with the table; undo asserted whenever the renaming is one-to-one.",
- "C15": " Synthetic methods calling the same name and descriptor in the super class (visibility bridges); bridges whose own entry is unnamed while an ancestor names them.",
- "C16": " A quarter of the class seeds spell member names with unpaired surrogates; switch tables ending at i32::MAX.",
+ "C15": " Synthetic methods calling the same name and descriptor in the super class (visibility bridges); bridges whose own entry is unnamed while an ancestor names them. Bridges inside interfaces; synthetic methods without code.",
+ "C16": " A quarter of the class seeds spell member names with unpaired surrogates; switch tables ending at i32::MAX. An unknown element followed by 100000 deeper-indented lines in every text format; a valid method with a label at every bytecode offset.",
  "C17": " The masked and () reads are repeated on a Read+Seek stream that hands out 1-5 bytes per call.",
  "C18": " Sub-check lookalike_code_points: every code point sharing its low byte with a descriptor character (quick: a sixteenth of the pages above U+2FFF) at every position kind.",
- "C19": " Management lists of 64-200 entries; an artifact returning deep in a dependency line with another classifier / type / as a rival.",
- "C20": " A write into a buffer that is too small precedes every write.",
+ "C19": " Management lists of 64-200 entries; an artifact returning deep in a dependency line with another classifier / type / as a rival. test-jar dependencies with explicit classifiers; the same roots resolved twice with one downloader.",
+ "C20": " A write into a buffer that is too small precedes every write. Sub-check full_constant_pool: pools of 65531-65535 slots.",
 }
 
 def main():
